@@ -188,7 +188,7 @@ func c07Judge(rule string, objs []*AV) (what string, detail string) {
 
 func checkC07(c *Ctx) {
 	c.Res.Rule = "rule texts (55% sentences, mutants, token soup, random bytes incl. invalid UTF-8, nesting to depth 220, chains to 4 KiB) x 1-3 objects from an adversarial zoo (nil map, non-objects in the middle of paths, NaN/Inf, typed nil, named map, slices, structs, funcs, channels, panicking Stringers), evaluated on one reused evaluator and through both Evaluate functions, in a child process watched for death and hangs; every public call wrapped in recover; checked: nothing escapes, error => verdict false, Error() of every returned error and of LastDebugErr returns; non-trivial = distinct (rule, objects) where some call returned an error or a diagnostic"
-	n := c.budget(8000, 120000)
+	n := c.budget(8000, 360000)
 	// the cases are generated here, executed in a child
 	var cases []c07Case
 	gen := func() c07Case {
@@ -372,7 +372,7 @@ func (c *Ctx) coldReference(lines []string) []string {
 // ---------- C14 ----------
 func checkC14(c *Ctx) {
 	c.Res.Rule = "rule texts of every family (sentences, mutants, token soup, bytes, empty, blanks) x zoo objects; rules.Evaluate, parser.NewEvaluator+Process and parser.Evaluate side by side; compared: verdicts, error-or-not, and verdict false whenever an error is reported; non-trivial = distinct (rule, object) on which an error is reported or the verdict is true"
-	n := c.budget(15000, 200000)
+	n := c.budget(15000, 600000)
 	for i := 0; i < n+len(corpusTexts) && !c.full(); i++ {
 		var s string
 		var t *Node
@@ -439,7 +439,7 @@ func checkC14(c *Ctx) {
 // ---------- C13 ----------
 func checkC13(c *Ctx) {
 	c.Res.Rule = "rules (well-formed and not) x objects with nested, shared (the same map reachable by two paths) and odd sub-values (named maps, map[interface{}]interface{}, slices); deep snapshot (structure, values, float bits, map identity) before and after Process, rules.Evaluate, parser.Evaluate and LastDebugErr().Error(), for verdict, error and recovered-panic outcomes; non-trivial = distinct (rule, object) whose evaluation reads at least one nested map"
-	n := c.budget(10000, 150000)
+	n := c.budget(10000, 450000)
 	for i := 0; i < n && !c.full(); i++ {
 		s, t := c.anyRuleText()
 		if len(s) > 600 {
@@ -498,7 +498,7 @@ func checkC13(c *Ctx) {
 // ---------- C11 ----------
 func checkC11(c *Ctx) {
 	c.Res.Rule = "histories of 5-40 Process/Reset/LastDebugErr calls on a pool of 1-6 evaluators for different rules created at random points (parser caches cold at first, warm later), objects of all kinds incl. panicking Stringers and non-objects inside paths; each Process is compared with a freshly created evaluator for the same text on the same object (verdict, error class, diagnostic, Stringer calls), LastDebugErr with the Lean evaluator state machine fed with those fresh answers (SEQP); non-trivial = distinct history containing >= 2 Process calls on one evaluator with different outcomes"
-	n := c.budget(1500, 25000)
+	n := c.budget(1500, 75000)
 	for i := 0; i < n && !c.full(); i++ {
 		type slot struct {
 			text      string
@@ -644,7 +644,7 @@ func (w *wrapErr) Unwrap() error { return w.inner }
 
 func checkC19(c *Ctx) {
 	c.Res.Rule = "operation sequences on the exported NestedError API: a cause (errors.New, a %w-wrapping error, a custom Unwrap error) wrapped in 1-6 layers, Set with 0-4 key/value pairs per call (keys incl. err and msg; values encodable: ints, floats, strings with quotes/angle brackets/control characters, nested maps, slices, nil; not encodable: channels, funcs, NaN, +Inf, complex) before and after Error(), Error() and Original() repeated; texts compared with the Lean model byte for byte; non-trivial = distinct sequence with >= 2 layers and a Set"
-	n := c.budget(10000, 150000)
+	n := c.budget(10000, 450000)
 	msgPool := []string{"a", "b", "outer \"q\"", "with <angle> & amp", "tab\there", "nl\nline", "", "ünï", "x: y", "{\"j\":1}", "back\\slash", "\x01ctl", " sep"}
 	keyPool := []string{"k", "a_b", "Z", "attr_path", "err", "msg", "object_path_operand", "rule_operand", "k2", "0"}
 	valPool := []func() interface{}{func() interface{} { return 1 }, func() interface{} { return "s<>&\"" }, func() interface{} { return 2.5 }, func() interface{} { return nil },
